@@ -8,6 +8,7 @@ import (
 	"sort"
 	"strings"
 	"sync"
+	"sync/atomic"
 	"time"
 
 	proto "github.com/kubewharf/kubebrain-client/api/v2rpc"
@@ -34,7 +35,7 @@ func init() {
 		Plan: func(tier string) Plan {
 			return Plan{Level: "fault_enumeration", NCases: pick(tier, 8*c09Chunks, 600*c09Chunks), Batch: 1, CaseTimeout: 600,
 				Rule: "histories are PRNG sequential scripts of 10-30 writes over 3-5 keys, rebuilt on a fresh engine for every execution; for EVERY write batch position p=1..D of the history (split over 4 cases per history) the engine's answer to that batch is replaced by storage.NewErrUncertainResult in both variants (batch applied / not applied); " +
-					"for the applied variant three more executions also fault the repair write of the retry loop (unknown+applied / unknown+not applied / definite storage error). The script then continues with writes to the same and other keys (expectations refreshed by Get, as a client would). Retry intervals 30ms/10ms via the verif hook. " +
+					"for the applied variant three more executions also fault the repair write of the retry loop (unknown+applied / unknown+not applied / definite storage error). The script then continues with writes to the same and other keys (expectations refreshed by Get, as a client would). Every 4th history is instead run concurrently: 3 clients, 4% of the batches answered unknown and late (both variants), the next batch that reaches the engine meanwhile answered unknown at once, so that a younger unknown outcome is answered before an older one, a compactor requesting Compact(max) throughout. Retry intervals 30ms/10ms via the verif hook. " +
 					"oracle: faulted call answers an error; later writes flow and become readable; Compact while unresolved stays below the unresolved revision; after the retry queue is empty and the sequencer quiescent: Get/List == highest landed write per key in the storage-boundary log, acknowledged successes landed, failed ones did not, and pre-fault List + delivered watch events == final List. " +
 					"evaluations = executions; non-trivial+distinct = executions whose injected unknown outcome fired, identified by (history, position, variant)",
 				Assumptions: []string{"unknown outcomes are injected by a wrapper at the storage.KvStorage boundary (real TiKV timeouts are not reachable)",
@@ -394,6 +395,52 @@ func (e *c09Exec) run(steps []c09Step) {
 			return
 		}
 	}
+	// every delivered event must carry what the engine holds: PUT/CREATE the landed value at that revision, DELETE the
+	// value and revision of the version the deletion replaced (also for events published by the repair of an unknown outcome)
+	byKey := map[string][]landed{}
+	e.mu.Lock()
+	for _, l := range e.landedLog {
+		byKey[l.raw] = append(byKey[l.raw], l)
+	}
+	e.mu.Unlock()
+	for k := range byKey {
+		sort.Slice(byKey[k], func(i, j int) bool { return byKey[k][i].rev < byKey[k][j].rev })
+	}
+	for _, ev := range events {
+		k := string(ev.Kv.Key)
+		idx := -1
+		for i, l := range byKey[k] {
+			if l.rev == ev.Revision {
+				idx = i
+			}
+		}
+		if idx < 0 {
+			c.Violatef("C09 event-for-a-write-that-did-not-land", e.wit(), "event %s names revision %d which no landed write of that key has", evStr(ev), ev.Revision)
+			return
+		}
+		l := byKey[k][idx]
+		if ev.Type == proto.Event_DELETE {
+			// previous live version: the nearest earlier landed write that is not a deletion mark (repairs re-write the mark)
+			var prev *landed
+			for i := idx - 1; i >= 0; i-- {
+				if !bytes.Equal(byKey[k][i].val, []byte("tombstone")) {
+					prev = &byKey[k][i]
+					break
+				}
+			}
+			if prev != nil && (!bytes.Equal(ev.Kv.Value, prev.val) || ev.Kv.Revision != prev.rev) {
+				sig := "C09 delete-event-carries-wrong-previous-kv"
+				if e.fired && k == e.firedKey {
+					sig += " event-published-by-repair"
+				}
+				c.Violatef(sig, e.wit(), "event %s: the deleted version was (%q,%d)", evStr(ev), trimB(prev.val), prev.rev)
+				return
+			}
+		} else if !bytes.Equal(ev.Kv.Value, l.val) || ev.Kv.Revision != ev.Revision {
+			c.Violatef("C09 put-event-carries-wrong-kv", e.wit(), "event %s: the engine holds %q at revision %d", evStr(ev), trimB(l.val), l.rev)
+			return
+		}
+	}
 	// replaying the delivered events over the earlier snapshot yields the final state
 	state := map[string]*proto.KeyValue{}
 	for _, kv := range l0.Kvs {
@@ -456,6 +503,15 @@ func runC09(c *harness.Case) {
 		keys = append(keys, fmt.Sprintf("%s/u%d", harness.Prefix, i))
 	}
 	c.AddSet("engines", kind)
+	if hIdx%4 == 3 {
+		// every 4th history is instead a concurrent run (one case per history)
+		if chunk == 0 {
+			for rep := 0; rep < 6 && c.R.Verdict == "held"; rep++ {
+				runC09Concurrent(c, kind)
+			}
+		}
+		return
+	}
 	// dry run: learn D (number of write batches) and validate the machinery without faults
 	dry := newC09Exec(c, kind, keys)
 	if dry == nil {
@@ -523,3 +579,268 @@ func runC09(c *harness.Case) {
 var _ = errors.New
 var _ = coder.ParseRevision
 var _ storage.KvStorage
+
+// runC09Concurrent: several clients, unknown outcomes injected on a fraction of the write batches (both variants),
+// commits delayed so that answers arrive out of revision order, and a compactor requesting Compact(max) all the
+// time. After hook-observed quiescence the store and the watch stream must have converged to the engine's log.
+func runC09Concurrent(c *harness.Case, kind string) {
+	r := c.Rng
+	eng, err := harness.NewEngine(kind)
+	if err != nil {
+		c.Inconclusive(err.Error())
+		return
+	}
+	keys := []string{harness.Prefix + "/u0", harness.Prefix + "/u1", harness.Prefix + "/u2", harness.Prefix + "/u3", harness.Prefix + "/u4"}
+	e := &c09Exec{c: c, kind: kind, eng: eng, keys: keys}
+	e.w = harness.NewWrap(eng.KV)
+	seed := r.Int63()
+	// repairs are not attempted before retryIv after the write was queued: until then the revision is unresolved
+	const retryIv = 400 * time.Millisecond
+	backend.VerifSetRetryIntervals(retryIv, 10*time.Millisecond)
+	defer backend.VerifSetRetryIntervals(30*time.Millisecond, 10*time.Millisecond)
+	var unresolved sync.Map // revision -> time of the engine's decision (the write cannot be queued before it)
+	var frozen sync.Map     // key -> true: clients leave the key alone after an unknown outcome on it (half of the base faults)
+	nInjected := int64(0)
+	faultsOff := int32(0)
+	e.w.BeforeCommit = func(b *harness.BatchInfo) {
+		x := uint64(seed) ^ uint64(b.Seq)*0x9e3779b97f4a7c15
+		x ^= x >> 29
+		time.Sleep(time.Duration(x%400) * time.Microsecond)
+	}
+	// Unknown outcomes come in pairs: a base fault (4% of the write batches, two thirds of them applied) is answered
+	// late, as a timeout would be, and the next write batch that reaches the engine while that answer is pending is
+	// answered "unknown" at once - the younger revision is answered before the older one.
+	var lateInFlight, followers int32
+	e.w.Decide = func(b *harness.BatchInfo) harness.Decision {
+		if _, rev, _, ok := b.Write(); ok && atomic.LoadInt32(&faultsOff) == 0 {
+			x := uint64(seed)*31 ^ uint64(b.Seq)*0xc2b2ae3d27d4eb4f
+			x ^= x >> 31
+			if atomic.LoadInt32(&lateInFlight) > 0 && atomic.AddInt32(&followers, 1) == 1 {
+				atomic.AddInt64(&nInjected, 1)
+				unresolved.Store(rev, time.Now())
+				b.Tag = "follower"
+				if (x>>9)%2 == 0 {
+					return harness.UncertainApplied
+				}
+				return harness.UncertainNotApplied
+			}
+			if x%100 < 4 {
+				atomic.AddInt64(&nInjected, 1)
+				unresolved.Store(rev, time.Now())
+				if raw, _, _, _ := b.Write(); (x>>13)%2 == 0 {
+					frozen.Store(string(raw), true)
+				}
+				b.Tag = "late"
+				atomic.StoreInt32(&followers, 0)
+				atomic.AddInt32(&lateInFlight, 1)
+				if (x>>9)%3 != 0 {
+					return harness.UncertainApplied
+				}
+				return harness.UncertainNotApplied
+			}
+		}
+		return harness.Pass
+	}
+	e.w.AfterCommit = func(b *harness.BatchInfo, ret error) {
+		e.after(b, ret)
+		if b.Tag == "late" {
+			x := uint64(seed)*131 ^ uint64(b.Seq)*0x9e3779b97f4a7c15
+			x ^= x >> 27
+			time.Sleep(time.Duration(5+x%15) * time.Millisecond)
+			atomic.AddInt32(&lateInFlight, -1)
+		}
+	}
+	e.n = harness.NewNode(harness.NodeOpts{KV: e.w, TrackNotify: true, Config: backend.Config{WatchCacheSize: 8192}})
+	defer e.close()
+	n := e.n
+	full := harness.Prefix + "/"
+	fullEnd := string(backend.PrefixEnd([]byte(full)))
+	l0, err := n.List(full, fullEnd, 0, 0)
+	if err != nil {
+		c.Inconclusive("initial list failed")
+		return
+	}
+	wch, err := n.B.Watch(harness.Ctx, full, 0)
+	if err != nil {
+		c.Inconclusive("watch refused")
+		return
+	}
+	var wg sync.WaitGroup
+	var stop int32
+	var hmu sync.Mutex
+	for ci := 0; ci < 3; ci++ {
+		wg.Add(1)
+		rr := newRand(r.Int63())
+		go func(ci int) {
+			defer wg.Done()
+			for i := 0; i < 40; i++ {
+				key := keys[rr.Intn(len(keys))]
+				if _, fr := frozen.Load(key); fr {
+					continue
+				}
+				g, gerr := n.Get(key, 0)
+				if gerr != nil {
+					continue
+				}
+				var op harness.SeqOp
+				val := []byte(fmt.Sprintf("c%d-%d", ci, i))
+				switch {
+				case g.Kv == nil:
+					op = harness.SeqOp{Kind: "create", Key: key, Val: val}
+				case rr.Intn(2) == 0:
+					op = harness.SeqOp{Kind: "delete", Key: key, Exp: g.Kv.Revision}
+				default:
+					op = harness.SeqOp{Kind: "update", Key: key, Val: val, Exp: g.Kv.Revision}
+				}
+				out := n.Do(op)
+				hmu.Lock()
+				e.hist = append(e.hist, fmt.Sprintf("c%d %s -> %s", ci, op, out))
+				hmu.Unlock()
+			}
+		}(ci)
+	}
+	var cwg sync.WaitGroup
+	cwg.Add(1)
+	compactions, capChecks := int64(0), int64(0)
+	go func() {
+		defer cwg.Done()
+		for atomic.LoadInt32(&stop) == 0 {
+			t0 := time.Now()
+			resp, err := n.B.Compact(harness.Ctx, 0)
+			t1 := time.Now()
+			if err != nil {
+				continue
+			}
+			atomic.AddInt64(&compactions, 1)
+			unresolved.Range(func(k, v interface{}) bool {
+				rev, decided := k.(uint64), v.(time.Time)
+				// the write was dealt its revision and answered by the engine before Compact was called, and Compact
+				// returned before the retry loop may look at it: the revision was unresolved all along
+				if decided.Before(t0) && t1.Before(decided.Add(retryIv)) && resp.Header.GetRevision() >= rev {
+					hmu.Lock()
+					defer hmu.Unlock()
+					c.Violatef("C09 compaction-advanced-past-unresolved-revision concurrent-unknown-outcomes", e.wit(), "Compact(max) answered effective revision %d while revision %d (outcome unknown, not yet repaired) was unresolved", resp.Header.GetRevision(), rev)
+					return false
+				}
+				return true
+			})
+			atomic.AddInt64(&capChecks, 1)
+			time.Sleep(300 * time.Microsecond)
+		}
+	}()
+	wg.Wait()
+	ok := e.quiesce()
+	atomic.StoreInt32(&stop, 1)
+	cwg.Wait()
+	if c.R.Verdict == "violated" {
+		return
+	}
+	if !ok {
+		if missing, _, _, _ := n.Conservation(); len(missing) > 0 {
+			c.Violatef("C09 later-requests-stuck concurrent", e.wit(), "revisions %v never resolved", firstN(missing, 4))
+		} else {
+			c.Inconclusive("watchdog: retry queue did not drain")
+		}
+		return
+	}
+	atomic.StoreInt32(&faultsOff, 1)
+	sent, serr := n.Create(harness.Prefix+"/zz-sentinel", []byte("s"))
+	if serr != nil || !sent.Succeeded {
+		c.Inconclusive("sentinel write failed")
+		return
+	}
+	var events []*proto.Event
+	deadline := time.After(60 * time.Second)
+	for done := false; !done; {
+		select {
+		case batch, okc := <-wch:
+			if !okc {
+				c.Violatef("C09 watch-closed concurrent", e.wit(), "the watch stream was closed")
+				return
+			}
+			for _, ev := range batch {
+				if string(ev.Kv.Key) == harness.Prefix+"/zz-sentinel" {
+					done = true
+					break
+				}
+				events = append(events, ev)
+			}
+		case <-deadline:
+			c.Inconclusive("watchdog waiting for the sentinel event")
+			return
+		}
+	}
+	// store == highest landed write per key
+	e.mu.Lock()
+	truth := map[string]landed{}
+	for _, l := range e.landedLog {
+		if t, okt := truth[l.raw]; !okt || l.rev > t.rev {
+			truth[l.raw] = l
+		}
+	}
+	e.mu.Unlock()
+	final, err := n.List(full, fullEnd, 0, 0)
+	if err != nil {
+		c.Violatef("C09 final-list-error concurrent", e.wit(), "final List: %v", err)
+		return
+	}
+	finalMap := map[string]*proto.KeyValue{}
+	for _, kv := range final.Kvs {
+		finalMap[string(kv.Key)] = kv
+	}
+	delete(finalMap, harness.Prefix+"/zz-sentinel")
+	for _, key := range keys {
+		t, has := truth[key]
+		fk := finalMap[key]
+		wantLive := has && !bytes.Equal(t.val, []byte("tombstone"))
+		if wantLive != (fk != nil) || (wantLive && (fk.Revision != t.rev || !bytes.Equal(fk.Value, t.val))) {
+			c.Violatef("C09 store-did-not-converge concurrent", e.wit(), "key %q: engine's newest landed write is (%q,%d); List answers %v", key, trimB(t.val), t.rev, fk)
+			return
+		}
+	}
+	state := map[string]*proto.KeyValue{}
+	for _, kv := range l0.Kvs {
+		state[string(kv.Key)] = kv
+	}
+	var evs []string
+	var last uint64
+	for _, ev := range events {
+		evs = append(evs, evStr(ev))
+		if ev.Revision <= last {
+			c.Violatef("C09 events-out-of-order concurrent", e.wit(), "event revisions not increasing: %v", evs)
+			return
+		}
+		last = ev.Revision
+		if ev.Type == proto.Event_DELETE {
+			delete(state, string(ev.Kv.Key))
+		} else {
+			state[string(ev.Kv.Key)] = &proto.KeyValue{Key: ev.Kv.Key, Value: ev.Kv.Value, Revision: ev.Revision}
+		}
+	}
+	var diffs []string
+	for k, kv := range finalMap {
+		if s, oks := state[k]; !oks || s.Revision != kv.Revision || !bytes.Equal(s.Value, kv.Value) {
+			diffs = append(diffs, fmt.Sprintf("%q: store has (%q,%d), replay has %v", k, kv.Value, kv.Revision, s))
+		}
+	}
+	for k, s := range state {
+		if _, okf := finalMap[k]; !okf {
+			diffs = append(diffs, fmt.Sprintf("%q: replay has (%q,%d), store has nothing", k, s.Value, s.Revision))
+		}
+	}
+	if len(diffs) > 0 {
+		sort.Strings(diffs)
+		w := e.wit().(map[string]interface{})
+		w["delivered_events"] = evs
+		c.Violatef("C09 watch-stream-did-not-converge concurrent-clients-and-compaction", w, "pre-fault List + delivered events != final List after %d unknown outcomes and %d compactions: %v", atomic.LoadInt64(&nInjected), atomic.LoadInt64(&compactions), diffs)
+		return
+	}
+	c.Stat("concurrent_unknown_outcomes_injected", atomic.LoadInt64(&nInjected))
+	c.Stat("compactions_while_clients_ran", atomic.LoadInt64(&compactions))
+	c.Stat("compaction_answers_checked_against_unresolved_set", atomic.LoadInt64(&capChecks))
+	fp := ""
+	if atomic.LoadInt64(&nInjected) > 1 {
+		fp = fmt.Sprintf("conc/%d/%d", c.Index, len(events))
+	}
+	c.AddExecution(fp)
+}
